@@ -45,10 +45,22 @@ def paramField (p : Limits) (name : String) : Int :=
 
 def maxOver (base : Int) (l : List Int) : Int := l.foldl max base
 
-/-- `configCoveringAdvertised`, with the fields it reads regenerated from the source -/
+/-- one incoming stream limit as `configCoveringAdvertised` derives it. `keeps = true` is the shape
+    `c.X = max(c.X, p.<srcs>…)` (the tree before ad4f2a6), `keeps = false` the shape `c.X = p.<src>`
+    (gofacts accepts exactly these two shapes). -/
+def coverOne (keeps : Bool) (own : Int) (srcs : List Int) : Int :=
+  if keeps then maxOver own srcs
+  else match srcs with
+    | [] => own
+    | x :: xs => maxOver x xs
+
+/-- `configCoveringAdvertised` for a given shape and given source fields -/
+def coverConfigWith (keeps : Bool) (bidiSrc uniSrc : List String) (conf p : Limits) : Limits :=
+  ⟨coverOne keeps conf.bidi (bidiSrc.map (paramField p)), coverOne keeps conf.uni (uniSrc.map (paramField p))⟩
+
+/-- `configCoveringAdvertised`, with its shape and the fields it reads regenerated from the source -/
 def coverConfig (conf p : Limits) : Limits :=
-  ⟨maxOver (if Uquic.Gen.Streams.coverKeepsConfig then conf.bidi else 0) (Uquic.Gen.Streams.coverBidiSources.map (paramField p)),
-   maxOver (if Uquic.Gen.Streams.coverKeepsConfig then conf.uni else 0) (Uquic.Gen.Streams.coverUniSources.map (paramField p))⟩
+  coverConfigWith Uquic.Gen.Streams.coverKeepsConfig Uquic.Gen.Streams.coverBidiSources Uquic.Gen.Streams.coverUniSources conf p
 
 /-- what the peer is told (initial_max_streams_bidi / _uni) -/
 def advertisedLimits (k : ConnKind) (conf spec : Limits) : Limits :=
@@ -56,11 +68,17 @@ def advertisedLimits (k : ConnKind) (conf spec : Limits) : Limits :=
   | .uclient => specParams spec
   | _ => populate conf
 
-/-- what the streams map is created with -/
-def enforcedLimits (k : ConnKind) (conf spec : Limits) : Limits :=
+/-- what the streams map is created with, for a given `configCoveringAdvertised` -/
+def enforcedLimitsWith (cover : Limits → Limits → Limits) (k : ConnKind) (conf spec : Limits) : Limits :=
   match k with
-  | .uclient => coverConfig (populate conf) (specParams spec)
+  | .uclient => cover (populate conf) (specParams spec)
   | _ => populate conf
+
+/-- what the streams map is created with -/
+def enforcedLimits (k : ConnKind) (conf spec : Limits) : Limits := enforcedLimitsWith coverConfig k conf spec
+
+/-- the shape of `configCoveringAdvertised` before ad4f2a6: `max(Config value, advertised)` per stream type -/
+def coverConfigMax : Limits → Limits → Limits := coverConfigWith true ["MaxBidiStreamNum"] ["MaxUniStreamNum"]
 
 /-! ### handleFrames -/
 
